@@ -1,13 +1,15 @@
 /*
- * pathwalk probe (C02).  Runs under the real ptrace runner.  Reads a script on stdin, one case per
- * line; for each case it
- *   1. asks the kernel directly where the (dirfd, path) pair(s) of the call lead: open(O_PATH) and
- *      open(O_PATH|O_NOFOLLOW) + readlink(/proc/self/fd/N); if the last component is missing, a real
- *      creation (open O_CREAT, or mkdirat for a trailing slash) followed by removal  -> kernel truth
- *   2. issues   getppid()   <scripted raw syscall with caller-chosen 64-bit registers>   getsid(0)
+ * pathwalk probe (C02).  Reads a script on stdin, one case per line, and runs it in one of two modes
+ * (same script, same descriptor set-up, so both runs see the same (dirfd, path) pairs):
+ *   pathwalk truth   (run directly) asks the kernel where the (dirfd, path) pair(s) of each call lead:
+ *      open(O_PATH) and open(O_PATH|O_NOFOLLOW) + readlink(/proc/self/fd/N); if the last component is
+ *      missing, a real creation (open O_CREAT, or mkdirat for a trailing slash) followed by removal.
+ *      prints:  <id> <path1 follow> <path1 nofollow> <path2 follow> <path2 nofollow>
+ *   pathwalk trace   (run under the real ptrace runner) issues
+ *         getppid()   <scripted raw syscall with caller-chosen 64-bit registers>   getsid(0)
  *      (the two markers tell the driver's handler which consultations belong to the scripted call;
  *       the handler answers "ban" between the markers so the scripted call itself never executes)
- *   3. prints one line:  <id> <ret> <truth path1 follow> <truth path1 nofollow> <truth path2 ...> <...>
+ *      prints:  <id> <ret>:<errno>
  * There is no expectation in here: names are translated to numbers with the C headers, nothing more.
  *
  * script line (space separated; strings hex-encoded with a leading 'x'):
@@ -203,8 +205,10 @@ static void dprep(struct dspec *d)
 	else d->reg = low;
 }
 
-int main(void)
+int main(int argc, char **argv)
 {
+	int do_truth = argc > 1 && !strcmp(argv[1], "truth");
+	if (argc < 2 || (!do_truth && strcmp(argv[1], "trace"))) die("usage: pathwalk truth|trace < script", "");
 	static char line[60000], cwd[4200], p1[4300], p2[4300], pf1[4200], pf2[4200], tmpn[4200], tok[16][8500];
 	static char t1f[9000], t1n[9000], t2f[9000], t2n[9000], buf[4096];
 	static struct dspec d1, d2;
@@ -252,15 +256,19 @@ int main(void)
 			snprintf(p2, sizeof p2, "/proc/self/fd/%d/%s", afd2, tmpn);
 		}
 
-		int two = strstr(tok[15], "p2") != 0;
-		truth(d1.reg, p1, 0, t1f);
-		truth(d1.reg, p1, 1, t1n);
-		if (two) {
-			truth(d2.reg, p2, 0, t2f);
-			truth(d2.reg, p2, 1, t2n);
-		} else {
-			strcpy(t2f, "-");
-			strcpy(t2n, "-");
+		if (do_truth) {
+			int two = strstr(tok[15], "p2") != 0;
+			truth(d1.reg, p1, 0, t1f);
+			truth(d1.reg, p1, 1, t1n);
+			if (two) {
+				truth(d2.reg, p2, 0, t2f);
+				truth(d2.reg, p2, 1, t2n);
+			} else {
+				strcpy(t2f, "-");
+				strcpy(t2n, "-");
+			}
+			printf("%s %s %s %s %s\n", tok[0], t1f, t1n, t2f, t2n);
+			goto done;
 		}
 
 		uint64_t a[6];
@@ -296,11 +304,12 @@ int main(void)
 		int err = errno;
 		syscall(SYS_getsid, 0L);                                /* marker: scripted call ended  */
 
+		printf("%s %ld:%s\n", tok[0], ret, ret < 0 ? ename(err) : "-");
+	done:
 		if (d1.fd >= 0) close(d1.fd);
 		if (d2.fd >= 0) close(d2.fd);
 		if (afd1 >= 0) close(afd1);
 		if (afd2 >= 0) close(afd2);
-		printf("%s %ld:%s %s %s %s %s\n", tok[0], ret, ret < 0 ? ename(err) : "-", t1f, t1n, t2f, t2n);
 	}
 	fflush(stdout);
 	return 0;
